@@ -1620,9 +1620,16 @@ class Inliner:
         self.nextid += 1
         return b.id
 
-    def _targets(self, caller, e):
+    def _targets(self, caller, e, known_table=None):
         """Repo functions a call event may enter, or None when it is not to be
         inlined (external, primitive, user callback)."""
+        if known_table is not None and 'callee' not in e:
+            # `method = &TABLE; ... method->slot(...)` in one block: the call is to that table's slot
+            slot = method_slot(e)
+            if slot is not None:
+                ts = self.prog.slot_targets(slot, known_table)
+                if ts and len(ts) == 1 and ts[0].blocks and not self.stop(ts[0]):
+                    return ts
         if 'callee' in e:
             if e['callee'] in self.prims:
                 return None
@@ -1701,7 +1708,20 @@ class Inliner:
                     return None
                 return subst(x, r)
 
+            known_table = None
+            tables = None
             for e in evs:
+                if e['ev'] == 'store' and e.get('op') == '=' and 'rhs' in e:
+                    l_, r_ = strip(e['lhs']), strip(e['rhs'])
+                    if l_.get('k') == 'var' and l_.get('vk') in ('global', 'staticlocal'):
+                        known_table = None
+                        if isinstance(r_, dict) and r_.get('k') == 'addr' and strip(r_['e']).get('k') == 'var':
+                            if tables is None:
+                                tables = self.prog.method_tables()
+                            if strip(r_['e'])['name'] in tables:
+                                known_table = strip(r_['e'])['name']
+                elif e['ev'] == 'call' and not (known_table is not None and 'callee' not in e and method_slot(e) is not None):
+                    known_table = None
                 e2 = rn({k: v for k, v in e.items() if k not in ('_b', '_i')})
                 e2 = apply_repl(e2)
                 e2['chain'] = chain
@@ -1720,7 +1740,8 @@ class Inliner:
                     continue
                 tg = None
                 if depth < self.depth:
-                    tg = self._targets(f, e)
+                    tg = self._targets(f, e, known_table)
+                    known_table = None
                     if tg:
                         tg = [t for t in tg if t.q not in active]
                 if not tg:
